@@ -18,7 +18,7 @@ EXPLANATION = (
     "S8 the number of trials started in one scheduling step is n_workers minus the number of busy workers, reachable only "
     "below the threshold; S9 in/out parameter discipline - the running set handed in by the caller is never rebound; "
     "S10 every started or resumed trial is registered in the running set and the status before the next trial can be "
-    "requested or the step can fail. NOT decided: run-time interleavings of real worker events (a backend whose "
+    "requested or the step can fail. S1 also: the simulated busy set mirrors the events (added on a start event, removed on every path of a completion / stop event, written by nobody else) and each event goes to the handler of its type; S5 also: every result given to the scheduler is recorded as the trial's last seen result first, and on_trial_complete is given that record. NOT decided: run-time interleavings of real worker events (a backend whose "
     "busy_trial_ids lies).")
 
 FLOOR = {"S1": 5, "S2": 4, "S3": 3, "S4": 3, "S5": 12, "S6": 5, "S7": 1, "S8": 3, "S9": 2, "S10": 2}
